@@ -756,6 +756,10 @@ def run(ctx: Ctx) -> None:
     rep.rule("C09.R24", "the sources of one combined signature (calls, loads, arguments ...) use disjoint key families: equal pairs would cancel in the exclusive-or")
     n24 = key_families_disjoint(ctx, "C09.R24")
     rep.floor("C09.R24", n24, 2)
+    rep.rule("C09.R28", "inside one source of a combined signature the keys are pairwise distinct: the key of a pair built in a comprehension names the position (`enumerate`) or "
+                        "the key of the mapping that is iterated, never the element of a sequence that may hold it twice (two equal pairs cancel in the exclusive-or)")
+    n28 = keys_distinct_within_source(ctx, "C09.R28")
+    rep.floor("C09.R28", n28, 3)
     from .common import collected_is_used
     rep.rule("C09.R20", "what the analysis collects it hands on: the interactions found in the methods of a class, in the sub-calls and in the loads of a function are part of the record "
                         "the inspector returns (a local collection that is filled is also read)")
@@ -993,6 +997,102 @@ def reference_skips_seen(ctx: Ctx, rule: str) -> int:
                             "a function that is only handed by name to a higher-order helper (`apply(reader)`) is not followed: the paths it loads are not resolved before the main analysis, "
                             "which then refuses them as 'loaded before produced' although they are in the store"], stmt_key(tests[0]),
                             what="functions referenced by name are not followed by the analysis (the seen-names test is inverted)")
+    return n
+
+
+def keys_distinct_within_source(ctx: Ctx, rule: str) -> int:
+    """Every comprehension of (key, hash) pairs of the analysis modules - a 2-tuple whose first component is a formatted key, `HK(f"load_dep_{..}")` - takes the varying
+    part of the key from something that is different at every iteration: the index of `enumerate(..)`, or the key of the mapping / the member of the set it iterates.
+    The loads of a function are a *list* (the same path may be loaded twice): keyed by the path, the two pairs of `len(dds.load(p)) + max(dds.load(p))` are equal and
+    cancel in the exclusive-or of the combiner; the call that receives the loaded values keeps its signature when p is kept again with another value."""
+    rep = ctx.report
+    prog = ctx.prog
+    n = 0
+
+    def target_names(t: ast.AST) -> List[str]:
+        return [x.id for x in ast.walk(t) if isinstance(x, ast.Name)]
+
+    def list_typed(f: Func, it: ast.AST) -> Optional[str]:
+        """why the iterable is a sequence that may hold an element twice, None when this is not known"""
+        if isinstance(it, (ast.List, ast.ListComp)):
+            return "a list display"
+        if isinstance(it, ast.Call) and isinstance(it.func, ast.Name) and it.func.id in ("list", "tuple") and it.args:
+            return list_typed(f, it.args[0]) or (f"`{unparse(it, 40)}` keeps the duplicates of its argument" if not isinstance(it.args[0], ast.Call) else None)
+        ann = None
+        if isinstance(it, ast.Attribute) and isinstance(it.value, ast.Name) and it.value.id == "self" and f.cls is not None:
+            for m in f.cls.methods.values():
+                for x in m.own_nodes():
+                    if isinstance(x, ast.AnnAssign) and isinstance(x.target, ast.Attribute) and isinstance(x.target.value, ast.Name) and x.target.value.id == "self" and x.target.attr == it.attr:
+                        ann = x.annotation
+                    elif isinstance(x, ast.Assign) and any(isinstance(t, ast.Attribute) and isinstance(t.value, ast.Name) and t.value.id == "self" and t.attr == it.attr for t in x.targets) \
+                            and isinstance(x.value, ast.List):
+                        return f"`self.{it.attr}` is a list (`{unparse(x, 50)}`)"
+        elif isinstance(it, ast.Name):
+            for a in f.node.args.args + f.node.args.kwonlyargs:
+                if a.arg == it.id:
+                    ann = a.annotation
+            for x in f.own_nodes():
+                if isinstance(x, ast.AnnAssign) and isinstance(x.target, ast.Name) and x.target.id == it.id:
+                    ann = x.annotation
+        if ann is not None:
+            head = unparse(ann).split("[")[0].split(".")[-1]
+            if head in ("List", "list", "Sequence", "Tuple", "tuple", "Iterable"):
+                return f"`{unparse(it, 40)}` is declared `{unparse(ann, 50)}`"
+        return None
+
+    for f in prog.funcs.values():
+        if f.module.name not in ("dds.introspect", "dds._introspect_indirect"):
+            continue
+        for c in f.own_nodes():
+            if not (isinstance(c, (ast.ListComp, ast.GeneratorExp)) and isinstance(c.elt, ast.Tuple) and len(c.elt.elts) == 2 and len(c.generators) == 1):
+                continue
+            k = c.elt.elts[0]
+            if isinstance(k, ast.Call) and len(k.args) == 1 and not k.keywords:
+                k = k.args[0]
+            if not isinstance(k, ast.JoinedStr):
+                continue
+            varying = {x.id for v in k.values if isinstance(v, ast.FormattedValue) for x in ast.walk(v.value) if isinstance(x, ast.Name)}
+            gen = c.generators[0]
+            it = gen.iter
+            tn = target_names(gen.target)
+            varying &= set(tn)
+            if not varying:
+                continue
+            n += 1
+            desc = f"{f.name}: the keys `{unparse(k, 40)}` of the pairs built over `{unparse(it, 40)}` are pairwise distinct"
+            unique: Optional[Set[str]] = None
+            why = None
+            if isinstance(it, ast.Call) and isinstance(it.func, ast.Name) and it.func.id == "enumerate" and isinstance(gen.target, ast.Tuple) and len(gen.target.elts) == 2:
+                unique = set(target_names(gen.target.elts[0]))
+                inner = it.args[0] if it.args else None
+                if inner is not None and not (isinstance(inner, ast.Call) and isinstance(inner.func, ast.Name) and inner.func.id in ("set", "frozenset")):
+                    why = list_typed(f, inner) or "the elements of the enumerated sequence may repeat"
+                # enumerate(set(..)): the elements are distinct as well
+                if why is None:
+                    unique |= set(target_names(gen.target.elts[1]))
+            elif isinstance(it, ast.Call) and isinstance(it.func, ast.Attribute) and it.func.attr == "items" and isinstance(gen.target, ast.Tuple) and len(gen.target.elts) == 2:
+                unique = set(target_names(gen.target.elts[0]))
+                why = "the values of a mapping may repeat"
+            elif isinstance(it, ast.Call) and ((isinstance(it.func, ast.Attribute) and it.func.attr == "keys") or (isinstance(it.func, ast.Name) and it.func.id in ("set", "frozenset"))):
+                unique = set(tn)
+            elif isinstance(it, ast.Call) and isinstance(it.func, ast.Name) and it.func.id == "sorted" and it.args and isinstance(it.args[0], ast.Call) \
+                    and isinstance(it.args[0].func, ast.Name) and it.args[0].func.id in ("set", "frozenset"):
+                unique = set(tn)
+            else:
+                why = list_typed(f, it)
+                if why is None:
+                    # not known to be a sequence with repetitions (a mapping, a set, a de-duplicated list): nothing is claimed about it
+                    rep.ok(rule, f.qname, desc + " (iterable not known to hold an element twice)", f.loc(c))
+                    continue
+                unique = set()
+            if varying & unique:
+                rep.ok(rule, f.qname, desc + f" (`{sorted(varying & unique)[0]}` differs at every iteration)", f.loc(c))
+            else:
+                rep.bad(rule, f.qname, desc, f.loc(c),
+                        [f"the key varies with `{sorted(varying)[0]}` only, and {why}",
+                         "two loads of one path in one body (`len(dds.load(p))`, `max(dds.load(p))`) give two equal (key, signature) pairs, which cancel in the exclusive-or of the combiner: the "
+                         "context handed to the next kept call no longer depends on what p serves, and the call is served stale after p was kept again with another value"],
+                        stmt_key(c), what="equal pairs inside one source of a combined signature cancel out (key not unique per element)")
     return n
 
 
